@@ -227,9 +227,10 @@ func runC03(o *cli.Opts, run *evid.Run) {
 		ins  bool
 		d, b int
 	}
-	dims := []dimM{{true, 1, 1}, {true, 3, 2}, {true, 2, 5}, {false, 1, 1}, {false, 3, 2}, {false, 2, 18}}
+	// (2,5)/(2,18): two Keccak blocks; (3,7)/(1,52): three blocks (292 resp. 272 packed bytes)
+	dims := []dimM{{true, 1, 1}, {true, 3, 2}, {true, 2, 5}, {false, 1, 1}, {false, 3, 2}, {false, 2, 18}, {true, 3, 7}, {false, 1, 52}}
 	if o.Thorough() {
-		dims = append(dims, dimM{true, 8, 3}, dimM{true, 20, 1}, dimM{true, 32, 1}, dimM{false, 8, 3}, dimM{false, 20, 1}, dimM{false, 31, 1})
+		dims = append(dims, dimM{true, 4, 12}, dimM{false, 2, 90}, dimM{true, 8, 3}, dimM{true, 20, 1}, dimM{true, 32, 1}, dimM{false, 8, 3}, dimM{false, 20, 1}, dimM{false, 31, 1})
 	}
 	nValid := o.Pick(8, 30)
 	cli.ForEach(len(dims), 3, func(di int) {
@@ -260,11 +261,16 @@ func runC03(o *cli.Opts, run *evid.Run) {
 			run.Violate(dkey+"/public", fmt.Sprintf("public wires are %v, expected exactly [1 InputHash]", sys.Audit.Public), nil)
 		}
 		run.Add("public_input_shape_checked", 1)
-		blocks := 1
-		if dm.ins && (dm.b+2)*256+32+8 > 1088 || !dm.ins && dm.b*32+512+8 > 1088 {
-			blocks = 2
+		packed := 4*dm.b + 64
+		if dm.ins {
+			packed = 4 + 64 + 32*dm.b
 		}
+		blocks := packed/136 + 1
 		run.Hist("keccak_blocks", fmt.Sprint(blocks))
+		nValid := nValid
+		if blocks >= 3 && !o.Thorough() {
+			nValid = 3 // ~600k constraints per solve
+		}
 		flavours := []string{"", "lz-root", "zero-commitment", "lz-commitment", "", "members", "last-index"}
 		var jobs []int
 		for k := 0; k < nValid; k++ {
